@@ -88,6 +88,7 @@ func runC06(p *core.Prog, r *core.Result) {
 		"R6.10 done ends every wait: the field the wait loop tests is set by done to a constant that makes the loop exit (not to a result value that can be nil for a module that failed before running)",
 		"R6.7 the loader that registered a module publishes its result (done) on every exit, including failures before execution",
 		"R6.12 no result shared between module loads is memoised under a key that does not determine it: every Store/LoadOrStore on a sync.Map field in package dawn is keyed by everything (and the whole of everything) its value is computed from, and read under the key it is written under - otherwise what a module resolves to depends on which loader filled the cache first (the rule is R10.1's, which is exercised on the resolver's caches on every run; package dawn holds no such cache on the pinned tree)",
+		"R6.13 one file, one registry key: the module and target tables are keyed by printed labels, and the file a label names is found through label.Split, which ignores empty elements - so the key determines the file only if labels are canonical: every successful result of label.Clean is the empty string or what its scanner wrote, never the argument handed back unexamined (C12's R12.11; `//lib/` slipping through gives lib/BUILD.dawn two keys and it is executed twice)",
 	}
 	r.NotDecided = []string{"termination and deadlock-freedom under every interleaving of the loader goroutines", "equality of the resulting target and flag sets across interleavings"}
 
@@ -469,6 +470,8 @@ func runC06(p *core.Prog, r *core.Result) {
 	r.Floor("R6.10", nEnd, 1, "stores in done to the state the wait loop tests")
 	// R6.11 the registry key determines the file
 	checkRegistryKeyCanonical(p, r, loadModule)
+
+	checkCleanResultsFromScanner(p, r, "R6.13")
 
 	// ---- R6.12 caches shared between loaders
 	nDawnCaches := checkSyncMapCaches(p, r, "R6.12", pkgRoot, "")
